@@ -224,6 +224,8 @@ func (x *Exec) analyze() (err error) {
 		}
 		env.prove = true
 		env.skolems = x.preSk
+		// the function's own contract calls, most recent per callee: called_<name>, call_<name>_arg<i>, call_<name>_r<i>
+		x.bindCallRecords(o.st, x.fn, env.vars, o.st.topCalls)
 		// the witnesses chosen at entry for this function's quantified post-conditions join the pool
 		// only now: every quantified assumption made on the path (preconditions, callee post-conditions,
 		// loop invariants) is instantiated at them here, and no proof along the way carried them
